@@ -93,7 +93,10 @@ ENTRY = posixpath.join(CACHE, hashlib.sha1(SRC.encode('utf-8')).hexdigest())
 VER = posixpath.join(CACHE, '.cache-version')
 TOP = posixpath.dirname(giscanner.__file__)
 ARGV0 = '/install/bin/g-ir-scanner'
-ALIASES = {SRC: 'src', ENTRY: 'entry', VER: 'ver', CACHE: 'cachedir'}
+# source kind 'symlink': SRC is a symbolic link into a store of builds
+TARGETS = ['/store/build1/Dep-1.0.gir', '/store/build2/Dep-1.0.gir', '/store/build3/Dep-1.0.gir']
+ALIASES = {SRC: 'src', ENTRY: 'entry', VER: 'ver', CACHE: 'cachedir',
+           TARGETS[0]: 'target1', TARGETS[1]: 'target2', TARGETS[2]: 'target3'}
 # The scanner installation as seen by a process: mtimes of giscanner/*.py and of sys.argv[0]
 # (what the version stamp is documented to hash).  Distinct per file, so that "older than all",
 # "between" and "newest" are meaningful for an upgrade of a single module.
@@ -104,7 +107,7 @@ INSTALLS = {
     'H2': {MODULES['ast.py']: 200.5, MODULES['cachestore.py']: 250.5, MODULES['g-ir-scanner']: 220.5},
 }
 UPGRADE_MTIME = {'older-than-all': 50.25, 'between': 130.25, 'newest': 300.25}
-VERSIONS = (1, 2, 3)
+VERSIONS = (1, 2, 3, 4)
 NS = {'core': 'http://www.gtk.org/introspection/core/1.0', 'c': 'http://www.gtk.org/introspection/c/1.0'}
 
 
@@ -175,6 +178,8 @@ SCENARIOS = {
     'load||store||store':   (('L', 'load'), ('S1', 'store'), ('S2', 'store')),
     'scan||scan':           (('A', 'scan'), ('B', 'scan')),
     'scan||modify':         (('A', 'scan'), ('M', 'modify')),
+    'scan||modify(symlink-rewrite)': (('A', 'scan'), ('M', 'modify-rewrite')),
+    'scan||modify(symlink-repoint)': (('A', 'scan'), ('M', 'modify-repoint')),
     'load||purge':          (('L', 'load'), ('P', 'purge')),
     'load||purge(nover)':   (('L', 'load'), ('P', 'purge')),
     'store||purge':         (('S', 'store'), ('P', 'purge')),
@@ -184,7 +189,8 @@ SCENARIOS = {
     'store-crash||load':    (('S', 'store!'), ('L', 'load')),
     'sequential':           (),
 }
-SCN_ORDER = ['load||store', 'scan||scan', 'scan||modify', 'load||purge', 'load||purge(nover)', 'store||purge',
+SCN_ORDER = ['load||store', 'scan||scan', 'scan||modify', 'scan||modify(symlink-rewrite)',
+             'scan||modify(symlink-repoint)', 'load||purge', 'load||purge(nover)', 'store||purge',
              'purge||purge', 'store-crash;load', 'store-crash||load', 'load||store||store', 'scan||scan||modify']
 
 FIXES = {
@@ -358,6 +364,8 @@ def classify(mon, c, reasons):
     if any(r.startswith('R1: returned') or r.startswith('R2') or r.startswith('R5') for r in reasons):
         if not c.get('from_cache'):
             return 'own-parse-not-current'
+        if any(e[3] == 'lstat' and e[4] == SRC for e in ev) and not any(e[3] == 'stat' and e[4] == SRC for e in ev):
+            return 'source-symlink-not-followed'
         opened = [e for e in ev if e[3] == 'open' and e[4] == ENTRY]
         stated = [e for e in ev if e[3] == 'stat' and e[4] == ENTRY]
         reads = [e for e in ev if e[3] == 'read' and e[4] == ENTRY]
@@ -397,7 +405,26 @@ def _call(mon, a, kind, fn):
     return r
 
 
-def make_exec(scn, entry, move):
+def modify_source(vfs, mon, op):
+    """One modification of the source: 'replace' (plain file replaced atomically), 'rewrite' (the
+    file a symlinked source points to is regenerated; the link itself is untouched) or 'repoint' (the
+    link is switched to a file written at that moment).  One step; the new version is current from it."""
+    v = mon.src_hist[-1][1] + 1
+    if op == 'replace':
+        i = vfs.op_replace(SRC, gir_text(v), ('src', v))
+    elif op == 'rewrite':
+        i = vfs.op_replace(vfs.resolve(SRC), gir_text(v), ('src', v))
+    elif op == 'repoint':
+        free = [t for t in TARGETS if t not in vfs.files]
+        i = vfs.op_repoint(SRC, free[0], gir_text(v), ('src', v))
+    else:
+        raise HarnessBroken('unknown modification %r' % op)
+    mon.src_hist.append((i.mtime, v))
+
+
+def make_exec(scn, entry, move, srckind=None):
+    if srckind is None and '(symlink-' in scn:
+        srckind = 'symlink'
     vfs = VFS(mounts=[('/tmp', 1)] if move == 'copy' else [], read_chunk=CHUNK, aliases=ALIASES)
     vfs.environ = {'XDG_CACHE_HOME': XDG, 'HOME': '/home/u', '_ARGV0': ARGV0}
     vfs.install_files = INSTALLS
@@ -410,7 +437,12 @@ def make_exec(scn, entry, move):
     # history (seconds): v1 installed at 10.375; an entry for it written at 20.125; v2 replaces
     # the source at 20.625 - in the same whole second as that (now stale) entry; a fresh
     # entry is written at 20.875
-    vfs.mkfile(SRC, gir_text(2), 20.625, ('src', 2))
+    if srckind == 'symlink':
+        # the link was made when v1 was installed; v1 -> v2 regenerated its target in place
+        vfs.mkfile(TARGETS[0], gir_text(2), 20.625, ('src', 2))
+        vfs.mklink(SRC, TARGETS[0], 10.375)
+    else:
+        vfs.mkfile(SRC, gir_text(2), 20.625, ('src', 2))
     mon.src_hist = [(10.375, 1), (20.625, 2)]
     init = ('w', 'init', 'H1')
     if entry == 'fresh':
@@ -445,10 +477,9 @@ def make_exec(scn, entry, move):
         elif kind == 'scan':
             tr = gtransformer.Transformer(None)
             fn = lambda ex_, a: _call(mon, a, 'scan', lambda: tr._parse_include(SRC))
-        elif kind == 'modify':
-            def fn(ex_, a):
-                i = vfs.op_replace(SRC, gir_text(3), ('src', 3))
-                mon.src_hist.append((i.mtime, 3))
+        elif kind in ('modify', 'modify-rewrite', 'modify-repoint'):
+            op = {'modify': 'replace', 'modify-rewrite': 'rewrite', 'modify-repoint': 'repoint'}[kind]
+            fn = lambda ex_, a: modify_source(vfs, mon, op)
         elif kind == 'purge':
             def fn(ex_, a):
                 box = []
@@ -543,7 +574,8 @@ def explore_unit(part, tier, scn, entry, move, bounds, roots=None):
             part.sample({'scenario': scn, 'entry': entry, 'move': move, 'bound': explorer.bound,
                          'schedule': render(ex.schedule()), 'results': [list(r) for r in res]})
         for v in viols:
-            key = '%s@%s' % (v['mechanism'], scn)
+            # the source kind (plain file / symlink) is a parameter like entry state and move kind, not part of the key
+            key = '%s@%s' % (v['mechanism'], scn.split('(symlink-')[0])
             cand = (ex.preemptions, ex.crashes, len(ex.oplog))
             if key not in best or cand < best[key][0]:
                 best[key] = (cand, v, ex.schedule(), res)
@@ -817,7 +849,83 @@ def replay_upgrade(ctx, case):
     return not ex.monitor.violations
 
 
+# ------------------------------------------------ symlinked-source family ---
+LNK = 'symlinked-source(sequential)'
+
+
+def link_histories():
+    ops = ('rewrite', 'repoint')
+    hist = [(o,) for o in ops] + [(a, b) for a in ops for b in ops]
+    return [(e, h) for e in ('absent', 'fresh', 'stale') for h in hist]
+
+
+def lnk_run(case):
+    """One process at a time.  The source is a symlink.  S0 scans (and stores); after every
+    modification of the source a new process loads, then scans.  R1/R2/R5 as everywhere."""
+    entry, history = case
+    ex = make_exec('sequential', entry, 'rename', srckind='symlink')
+    mon = ex.monitor
+    a = ex.solo('S0', 'H1')
+    _call(mon, a, 'scan', lambda: gtransformer.Transformer(None)._parse_include(SRC))
+    steps = a.nsteps
+    for k, op in enumerate(history):
+        m = ex.solo('M%d' % (k + 1), 'H1')
+        modify_source(ex.vfs, mon, op)
+        a = ex.solo('P%d' % (k + 1), 'H1')
+        cs = cachestore.CacheStore()
+        _call(mon, a, 'load', lambda: cs.load(SRC))
+        _call(mon, a, 'scan', lambda: gtransformer.Transformer(None)._parse_include(SRC))
+        steps += a.nsteps + m.nsteps
+    ex.seq_steps = steps
+    return ex
+
+
+def _work_lnk(unit):
+    _, cases = unit
+    part = Part()
+    best = {}
+    for case in cases:
+        case = (case[0], tuple(case[1]))
+        ex = lnk_run(case)
+        res = results_of(ex)
+        part.add(evaluations=1, traces_validated_against_impl=1, transitions=ex.seq_steps, states=1,
+                 **{'symlink.histories': 1})
+        part.outcome(('lnk', case[0], len(case[1]), res))
+        part.nontrivial('lnk/%r' % (case,))
+        for v in ex.monitor.violations:
+            key = '%s@%s' % (v['mechanism'], LNK)
+            rank = (len(case[1]), 0, 0)
+            if key not in best or rank < best[key][0]:
+                best[key] = (rank, v, case, res)
+    if cases:
+        part.sample({'scenario': LNK, 'entry': cases[0][0], 'history': list(cases[0][1]),
+                     'processes': 'S0: scan+store; after each modification: load, scan'})
+    for key, (rank, v, case, res) in sorted(best.items()):
+        desc = ('%s with the source reached through a symbolic link, entry initially %s, after %s: %s'
+                % (v['call'], case[0], ' ; '.join(case[1]), ' | '.join(v['reasons'])))
+        part.violation(key, desc, {'scenario': 'symlink', 'entry': case[0], 'history': list(case[1]),
+                                   'mechanism': v['mechanism'], 'reasons': v['reasons'], 'rank': list(rank),
+                                   'results': [list(r) for r in res]})
+    return part.result()
+
+
+def replay_symlink(ctx, case):
+    ex = lnk_run((case['entry'], tuple(case['history'])))
+    print('source %s is a symbolic link; entry initially %s; S0 scans, then %s, each followed by load and scan'
+          % (SRC, case['entry'], ' ; '.join(case['history'])))
+    print('source versions: %s' % ', '.join('v%d since %g' % (v, t) for t, v in ex.monitor.src_hist))
+    for k in ex.monitor.calls:
+        print('call %s.%s [%g..%g] -> %s' % (k['actor'], k['kind'], k['t0'], k['t1'], k['exc'] or (
+            'None' if k['summary'] == 'None' else 'parse of v%s%s' % (k.get('version', '?'),
+                                                                     ' from the cache' if k.get('from_cache') else ''))))
+    for v in ex.monitor.violations:
+        print('VIOLATED by %s [%s]: %s' % (v['call'], v['mechanism'], ' | '.join(v['reasons'])))
+    return not ex.monitor.violations
+
+
 def _work(unit):
+    if unit[0] == 'lnk':
+        return _work_lnk(unit)
     if unit[0] == 'seq':
         return _work_seq(unit)
     if unit[0] == 'upg':
@@ -870,7 +978,7 @@ def units(tier):
 
 
 def _weight(u):
-    if u[0] in ('seq', 'upg'):
+    if u[0] in ('seq', 'upg', 'lnk'):
         return -30
     _, scn, entry, move, bounds = u
     w = len(SCENARIOS[scn]) ** 3 * (3 if 'scan' in scn else 1) * (2 if 'purge' in scn else 1)
@@ -883,6 +991,7 @@ def run(ctx):
     seq = seq_cases(ctx.tier)
     us += [('seq', c) for c in chunked(seq, 12)]
     us += [('upg', c) for c in chunked(upgrade_histories(), 4)]
+    us += [('lnk', link_histories())]
     ctx.max_reports = 60
     # heaviest first (load balance); the seed only rotates dispatch among equal weights
     us = sorted(rotate(us, ctx.seed), key=_weight)
@@ -918,6 +1027,10 @@ def run(ctx):
                     'preemption_bounds': dict((s, bounds_for(ctx.tier, s)) for s in SCN_ORDER),
                     'quick_cap_for_entries': {'trunc0/trunc2/trunc-frame': 'bounds <= 1 in the quick tier'},
                     'per_bound': per_bound,
+                    'symlinked_source': {'operations': ['rewrite target in place', 're-point link'],
+                                         'history_length': [1, 2], 'entries': ['absent', 'fresh', 'stale'],
+                                         'cases': len(link_histories()),
+                                         'concurrent': ['scan||modify(symlink-rewrite)', 'scan||modify(symlink-repoint)']},
                     'scanner_upgrade': {'modules': sorted(MODULES), 'new_mtime_classes': sorted(UPGRADE_MTIME),
                                         'history_length': [1, 2], 'histories': len(upgrade_histories())},
                     'sequential': {'prefix_lengths': [0, _L], 'multi_frame_entry_bytes': len(_BIG[0]),
@@ -966,6 +1079,8 @@ def replay_sequential(ctx, case):
 def replay(ctx, case):
     if case['scenario'] == 'sequential':
         return replay_sequential(ctx, case)
+    if case['scenario'] == 'symlink':
+        return replay_symlink(ctx, case)
     if case['scenario'] == 'upgrade':
         return replay_upgrade(ctx, case)
     scn, entry, move = case['scenario'], case['entry'], case['move']
